@@ -258,6 +258,7 @@ def run(c):
         c.extra["model_drift_examples"] = other[:5]
     c.extra["rejected_runs"] = len(bad)
     fold(c, t, out)
+    real_policy_map(c)
     if not c.violations:
         kk.cleanup_traces("c09_")
     c.exhaustive = False
@@ -265,11 +266,28 @@ def run(c):
               "documents replaced/removed per endpoint, key rotation, per-step failures of status/acquire/attest, mid-poll "
               "reconfiguration, notifications, restarts): the corner histories TLC finds, sampled ordered pairs of 12 "
               "documents, seeded random ones; each is executed by TLC on KeyKeeper.tla and in lock-step on the real key "
-              "keeper; distinct = distinct scripts; every recorded run is decided by TLC against the statement")
+              "keeper; distinct = distinct scripts; every recorded run is decided by TLC against the statement. Real maps: "
+              "the update_*_redirect_policy calls of every sequence of state changes (key keeper order) and of every sequence "
+              "of 5 single calls on the tree's eBPF object loaded into the kernel, policy_map read back after each call "
+              "(gen/PolicyMapGen, trace/PolicyMapTrace)")
+
+
+def real_policy_map(c):
+    """'interception follows the mode' down to the kernel: the lock-step runs above observe the CALLS of
+    update_*_redirect_policy (hook H3); here the same calls -- every sequence of state changes in the key keeper's order
+    (wireserver, imds, hostga; hostga follows wireserver) and every sequence of 5 single calls -- run on the REAL
+    policy_map of the tree's eBPF object (BpfObject::from_ebpf_file, nothing attached) and the map is read back after
+    every call (spec/gen/PolicyMapGen, spec/trace/PolicyMapTrace; checks/realmaps.py, shared with C06)."""
+    from checks import realmaps
+    c.assumptions = list(c.assumptions) + [realmaps.ASSUME]
+    realmaps.policy_map_histories(c)
 
 
 def replay(c, path):
     r = util.read_json(path)
+    if (r.get("signature") or {}).get("kind") == "policy-map-not-what-was-instructed":
+        c.assumptions = ASSUME
+        return real_policy_map(c)
     c.assumptions = ASSUME
     bindir = build.cargo_build("agent")
     rows = r["case"]["script"]
